@@ -572,6 +572,94 @@ def oracle_compositional(ctx, sc, mod, src, i, vals):
                      {"kind": "compositional"})
 
 
+def oracle_decompose(ctx, sc, mod, src, i, vals):
+    """a codec for a shape == the codecs of its COMPONENTS applied componentwise, one level down: tuple items, list/dict
+    elements, Optional, and the fields of a dataclass (use nested inside another dataclass) - encoding and decoding"""
+    from mashumaro.codecs.basic import BasicDecoder, BasicEncoder
+    import dataclasses as dc
+    t = sc.roots[i]
+    T = mod.ROOTS[i]
+    Dl = dl_of(sc, mod)
+    kw = {"default_dialect": Dl} if Dl else {}
+
+    def pytype(ast):
+        tp = eval(L.py_ty(ast), mod.__dict__)
+        return tp if py_to_ast(tp) == ast else None      # typing may hand out an older equal-but-reordered object
+
+    def comps(ast, obj, wire, decoding=False):
+        """[(label, component type AST, component object, component wire)]"""
+        k = ast[0]
+        out = []
+        if k == "tuple" and isinstance(obj, tuple) and isinstance(wire, list) and len(obj) == len(wire) == len(ast[1]):
+            out = [(f"[{j}]", ast[1][j], obj[j], wire[j]) for j in range(len(obj))]
+        elif k == "list" and isinstance(obj, list) and isinstance(wire, list) and len(obj) == len(wire):
+            out = [(f"[{j}]", ast[1], obj[j], wire[j]) for j in range(len(obj))]
+        elif k == "dict" and isinstance(obj, dict) and isinstance(wire, dict) and list(obj) == list(wire):
+            out = [(f"[{kk!r}]", ast[1], obj[kk], wire[kk]) for kk in obj]
+        elif k == "opt" and obj is not None and wire is not None:
+            out = [("", ast[1], obj, wire)]
+        elif k == "data" and dc.is_dataclass(obj) and L.cname(type(obj)) == ast[1] and isinstance(wire, dict):
+            for (fn, al, ft) in sc.cls(ast[1]).fields:
+                # to_dict writes name or alias; from_dict reads the alias when there is one
+                key = (al or fn) if decoding else (fn if fn in wire else al)
+                if key in wire:
+                    out.append(("." + fn, ft, getattr(obj, fn), wire[key]))
+        return out
+
+    for v in vals:
+        x = L.build(mod, v)
+        whole = L.call(lambda: BasicEncoder(T, **kw).encode(x))
+        if whole[0] != "ok":
+            continue
+        wire = BasicEncoder(T, **kw).encode(x)
+        rb = L.call(lambda: BasicDecoder(T, **kw).decode(wire))
+        if rb[0] != "ok":
+            # the whole decoder rejects its own encoder's output: then some component decoder must reject its component
+            # (positional shapes only: a dataclass may legitimately reject its own output, e.g. alias keys)
+            cs = [] if t[0] == "data" else [(label, ct, pytype(ct), cwire) for (label, ct, _, cwire) in comps(t, x, wire)]
+            if cs and all(CT is not None for (_, _, CT, _) in cs):
+                rs = [res_key(L.call(lambda CT=CT, cwire=cwire: BasicDecoder(CT, **kw).decode(cwire))) for (_, _, CT, cwire) in cs]
+                ctx.count(("decompose-dec-err", sc.sid, i, repr(v)), n=len(rs) + 1)
+                if all(r[0] == "ok" for r in rs):
+                    ctx.fail(f"decoder for {L.py_ty(t)} raises {show(res_key(rb))} on the output of its own encoder although every component "
+                             f"decoder accepts its component ({[c[0] for c in cs]})",
+                             {"entry": "decompose", "source": src, "root": i, "value": v, "dialect": sc.dialect, "at": "*",
+                              "pack": False, "observed": show(res_key(rb)), "expected": "componentwise success"},
+                             {"kind": "decompose"})
+            continue
+        try:
+            back = BasicDecoder(T, **kw).decode(wire)
+        except Exception:
+            continue
+        for (label, ct, cobj, cwire) in comps(t, x, wire):
+            CT = pytype(ct)
+            if CT is None:
+                continue
+            ctx.count(("decompose", sc.sid, i, label, repr(v)), n=2)
+            e1 = res_key(L.call(lambda: BasicEncoder(CT, **kw).encode(cobj)))
+            if e1 != ("ok", L.canon(cwire)):
+                ctx.fail(f"encoder for {L.py_ty(t)} is not componentwise at {label}: whole gives {show(L.canon(cwire))}, "
+                         f"BasicEncoder({L.py_ty(ct)}) gives {show(e1)}",
+                         {"entry": "decompose", "source": src, "root": i, "value": v, "dialect": sc.dialect, "at": label,
+                          "pack": True, "observed": show(L.canon(cwire)), "expected": show(e1)},
+                         {"kind": "decompose"})
+                continue
+        # decoding: the whole decoder's components vs the component decoders on the component wires
+        bcomps = comps(t, back, wire, decoding=True)
+        for (label, ct, cback, cwire) in bcomps:
+            CT = pytype(ct)
+            if CT is None:
+                continue
+            d1 = res_key(L.call(lambda: BasicDecoder(CT, **kw).decode(cwire)))
+            ctx.count(("decompose-dec", sc.sid, i, label, repr(v)), n=2)
+            if d1 != ("ok", L.canon(cback)):
+                ctx.fail(f"decoder for {L.py_ty(t)} is not componentwise at {label}: the whole decoder gives {show(L.canon(cback))} there, "
+                         f"BasicDecoder({L.py_ty(ct)}).decode(component) gives {show(d1)}",
+                         {"entry": "decompose", "source": src, "root": i, "value": v, "dialect": sc.dialect, "at": label,
+                          "pack": False, "observed": show(L.canon(cback)), "expected": show(d1)},
+                         {"kind": "decompose"})
+
+
 # ---- frame: creating codecs / subclasses in between changes nothing ---------------------
 
 CREATIONS = ["codec-same", "codec-list", "codec-dialect", "codec-related", "oneshot", "subclass-mixin",
@@ -958,6 +1046,8 @@ def run(ctx: vlib.Ctx):
             L.unload_module(mod)
             continue
         loaded.append((sc, vals, src, mod))
+        ctx.hist("scenario_annotations", "pep563-strings" if sc.pep563 else "objects")
+        ctx.hist("scenario_modules", "multi:same-qualname" if any(c.pyname != c.name for c in sc.classes) else ("multi" if sc.multi else "single"))
         ctx.hist("scenario", ("wide:" if sc.wide else "") + ("lazy:" if sc.lazy else "") + ("dialect" if sc.dialect is not None else "no-dialect"))
         if sc.wide:
             for c in sc.classes:
@@ -1049,6 +1139,7 @@ def run(ctx: vlib.Ctx):
             exact_vals = [v for (v, info) in lst if not info.get("subclass")]
             if exact_vals:
                 oracle_compositional(ctx, sc, mod, src, i, exact_vals[:3])
+                oracle_decompose(ctx, sc, mod, src, i, exact_vals[:2])
 
     # ---------------- oracle 3: frame (fresh modules)
     fsel = loaded if not ctx.quick() else [x for k, x in enumerate(loaded) if k < 5 or k % 2 == 1 or any(c.extra for c in x[0].classes)]
@@ -1161,6 +1252,13 @@ def replay(rep: dict) -> int:
             for f in ctx.failures:
                 print(f.what)
             rc = 1 if ctx.failures else 0
+        elif entry == "decompose":
+            ctx = vlib.Ctx("C15", "quick", rep.get("seed", 0))
+            sc = scenario_from_module(mod, rep)
+            oracle_decompose(ctx, sc, mod, src, rep["root"], [tup(rep["value"])])
+            for f in ctx.failures:
+                print(f.what)
+            rc = 1 if ctx.failures else 0
         elif entry == "oneshot-history":
             import typing
             perms = [[tup(m) if isinstance(m, list) else m for m in pm] for pm in rep["perms"]]
@@ -1247,7 +1345,7 @@ def py_to_ast(tp):
     if tp is datetime.date:
         return ("date",)
     if dc.is_dataclass(tp):
-        return ("data", tp.__name__)
+        return ("data", L.cname(tp))
     o = typing.get_origin(tp)
     a = typing.get_args(tp)
     if o is list:
@@ -1273,7 +1371,7 @@ def module_matches_scenario(sc, mod) -> bool:
             if py_to_ast(mod.ROOTS[i]) != t:
                 return False
         for c in sc.classes:
-            hints = typing.get_type_hints(getattr(mod, c.name), mod.__dict__)
+            hints = typing.get_type_hints(getattr(mod, c.name))     # resolved in the class's OWN module
             for (fn, _, ft) in c.fields:
                 if py_to_ast(hints[fn]) != ft:
                     return False
@@ -1299,7 +1397,7 @@ def scenario_from_module(mod, rep):
         if tp is datetime.date:
             return ("date",)
         if dc.is_dataclass(tp):
-            return ("data", tp.__name__)
+            return ("data", L.cname(tp))
         o = typing.get_origin(tp)
         a = typing.get_args(tp)
         if o is list:
@@ -1317,8 +1415,8 @@ def scenario_from_module(mod, rep):
     for n in names:
         k = getattr(mod, n)
         par = [b for b in k.__bases__ if dc.is_dataclass(b)]
-        parent = sc.cls(par[0].__name__) if par else None
-        hints = typing.get_type_hints(k, mod.__dict__)
+        parent = sc.cls(L.cname(par[0])) if par else None
+        hints = typing.get_type_hints(k)
         inherited = {f[0] for f in parent.fields} if parent else set()
         own = [(f.name, f.metadata.get("alias"), ty_of(hints[f.name])) for f in dc.fields(k) if f.name not in inherited]
         cfg = k.__dict__.get("Config")
